@@ -542,3 +542,23 @@ def block_label_align(run, R="ASM"):
     run.check(t_ok and b_ok, R, R + "|labels|labelalign", blk.loc(), "both label resolvers pad to the bank's labelalign",
               "the top-level iterator %s the bank's `labelalign`, the asm block evaluator %s: a label inside an asm block is not padded to the alignment, so the block's bits differ from the same instructions written in place" % (
                   "reads" if t_ok else "does not read", "reads it" if b_ok else "does not"))
+
+
+def inner_failure_rule(run, R="ASM"):
+    """a rule whose production is an asm block is one candidate among the rules that match: when the block's own instruction cannot
+    be encoded (an argument out of range for the inner rule, no inner rule matches), the candidate fails like a rule with a failed
+    constraint does - the evaluation answers a `FailedConstraint` value, which drops the candidate - and does not end the whole
+    instruction with `Err`"""
+    fam = [g for g in run.prog.real_fns() if (g.raw.get("root") or g.id).startswith("asm::resolver::eval_asm::")]
+    if not fam:
+        run.violation(R, R + "|inner-failure|anchor", "-", "mechanism not found: asm::resolver::eval_asm")
+        return
+    makes = False
+    for g in fam:
+        for bi, si, st in g.stmts():
+            if st["k"] == "assign" and st["rv"]["k"] == "agg" and st["rv"].get("variant") == "FailedConstraint" and "Value" in (st["rv"].get("adt") or ""):
+                makes = True
+    anchor = [g for g in fam if g.id.endswith("eval_asm::resolve_once")]
+    run.check(makes, R, R + "|inner-failure|fails-candidate", anchor[0].loc() if anchor else fam[0].loc(),
+              "an asm block whose instruction cannot be encoded answers a failed constraint (the candidate is dropped)",
+              "eval_asm never answers `Value::FailedConstraint`: when the instruction inside an asm block cannot be encoded, the block's rule ends the whole instruction with an error instead of being dropped as a candidate")
